@@ -76,6 +76,11 @@ def r1_r2_startup(ctx):
         mblk = [x[3] for x in walk(peel(f.expr_operand(s.args[0], s.b, 'T'))) if x[0] == 'call' and x[1].endswith('::next')]
         inner_ok = (not mblk) or (mblk[0] in loops[inner])
         ctx.check(ok and inner_ok, 'module-from-inner-traversal', 'within a stage the modules are visited by an in-order traversal of the module-tree vector (pre-order)', s.where(), d)
+        # both traversals are complete: a module that lacks the current stage is passed over, it does not end the stage (and a stage
+        # without work does not end start-up)
+        ctx.check(loop_exits_only_on_exhaustion(f, inner) and loop_exits_only_on_exhaustion(f, outer), 'traversals-complete',
+                  'the stage loop and the per-stage module loop both run to exhaustion (no break / early return)', s.where(),
+                  {'inner_complete': loop_exits_only_on_exhaustion(f, inner), 'outer_complete': loop_exits_only_on_exhaustion(f, outer)})
     bad = _reorder_ops(f)
     ctx.check(not bad, 'no-reorder-startup', 'the module sequence is not reordered or pruned while start-up runs', bad[0].where() if bad else f.where(), [x.name for x in bad])
     # R2
